@@ -6,8 +6,8 @@ func init() {
 	addWitness(Witness{Name: "endheight-write-failure-tolerated", Prop: "C05", Rule: "C05.R2", Kind: "break", File: "consensus/state.go",
 		Old: "	if err := cs.wal.WriteSync(endMsg); err != nil { // NOTE: fsync\n		panic(fmt.Sprintf(", New: "	if err := cs.wal.WriteSync(endMsg); err != nil { // NOTE: fsync\n		logger.Error(fmt.Sprintf("})
 	addWitness(Witness{Name: "abci-responses-saved-after-commit", Prop: "C05", Rule: "C05.R3", Kind: "break", File: "state/execution.go",
-		Old: "	// Save the results before we commit.\n	if err := blockExec.store.SaveABCIResponses(block.Height, abciResponses); err != nil {\n		return state, 0, err\n	}\n",
-		New: "",
+		Old:  "	// Save the results before we commit.\n	if err := blockExec.store.SaveABCIResponses(block.Height, abciResponses); err != nil {\n		return state, 0, err\n	}\n",
+		New:  "",
 		More: []Edit{{"state/execution.go", "	// Update evpool with the latest state.\n", "	if err := blockExec.store.SaveABCIResponses(block.Height, abciResponses); err != nil {\n		return state, 0, err\n	}\n	// Update evpool with the latest state.\n"}}})
 	addWitness(Witness{Name: "flush-error-ignored-before-commit", Prop: "C05", Rule: "C05.R5", Kind: "break", File: "state/execution.go",
 		Old: "		blockExec.logger.Error(\"client error during mempool.FlushAppConn\", \"err\", err)\n		return nil, 0, err\n", New: "		blockExec.logger.Error(\"client error during mempool.FlushAppConn\", \"err\", err)\n"})
